@@ -24,7 +24,7 @@ from dsim.reffv import RefFV
 
 EXC_TYPES = ["RuntimeError", "ValueError", "LinAlgError", "MemoryError", "FloatingPointError",
              "ZeroDivisionError", "NotImplementedError", "ArithmeticError"]
-SITES = ["entry", "backend", "setup"]
+SITES = ["entry", "backend", "setup", "post"]
 L1 = {"raviart_thomas": "RAVIART_THOMAS", "constant_subcell_projection": "CONSTANT_SUBCELL_PROJECTION",
       "constant_cell_projection": "CONSTANT_CELL_PROJECTION"}
 MOB = ["CELL_BASED", "CELL_BASED_ARITHMETIC", "CELL_BASED_HARMONIC", "SUBCELL_BASED", "FACE_BASED"]
@@ -93,6 +93,7 @@ class _SolverProxy:
         seam.maybe_raise("backend")
         x = self._real.solve(b, *a, **kw)
         seam.record_residual(x, b)
+        seam.maybe_raise("post")  # the back-end solve completed; the failure hits before linear_solve returns
         return x
 
 
@@ -486,7 +487,7 @@ class C04Engine(Engine):
     isolate_runs = True
     rule = ("One evaluation = one sampled solver configuration (method x formulation x back-end x l1/mobility mode x "
             "Anderson x weights x grid x mass pair x tolerances) with ALL its fault points enumerated: fault-free run, "
-            "then one run per (inner linear solve index k=1..n-1) x (site: linear_solve entry, back-end solve, solver "
+            "then one run per (inner linear solve index k=1..n-1) x (site: linear_solve entry, back-end solve, after the back-end solve, solver "
             "set-up), exception type rotating with seed, plus truncated references. Non-trivial and distinct = distinct "
             "(method, formulation, back-end, l1_mode, mobility_mode, AA on/off, weights on/off, site, k, exception type) "
             "tuples whose fault actually fired inside the solver loop and whose call returned a result.")
